@@ -486,7 +486,27 @@ def run(prog, rep, tier, repo):
             inf = SymInfer(seeds)
             ty = inf.infer_set(av)
             if name == 'Gaussian':
-                if ty is not None and ty.dim == unit('Y', 2) and not inf.problems:
+                # the residual sum of squares is a sum of squared residuals: products of raw y and mu (y.y - 2 y.mu + mu.mu) are the same number
+                # in exact arithmetic but a difference of sums of the order of |y|^2, which cancels when the responses are large next to the residuals
+                raw = []
+
+                def walk_(e_):
+                    if isinstance(e_, frozenset):
+                        for x_ in e_:
+                            walk_(x_)
+                        return
+                    if not isinstance(e_, tuple):
+                        return
+                    if e_ and e_[0] == 'b' and e_[1] == 'Mul' and all(z_ in (('sym', 'Y'), ('sym', 'MU')) for z_ in (e_[2], e_[3])):
+                        raw.append(e_)
+                    for x_ in e_[1:]:
+                        if isinstance(x_, (tuple, frozenset)):
+                            walk_(x_)
+                walk_(av)
+                if raw:
+                    rep.viol('deviance-scale', key, 'Gaussian deviance is assembled from raw second moments (%s ..) instead of squared residuals: as a difference of sums of '
+                             'the order of |y|^2 it loses the residual sum of squares to cancellation when responses or offsets are large' % show_expr(frozenset(raw[:2]))[:80], site_of(fd.body))
+                elif ty is not None and ty.dim == unit('Y', 2) and not inf.problems:
                     rep.ok('deviance-scale', key, 'Gaussian deviance = %s : [%s] (a sum of squared residuals)' % (show_expr(av)[:100], ty))
                 else:
                     rep.viol('deviance-scale', key, 'Gaussian deviance = %s has scale type [%s]; the residual sum of squares has [Y^2] (dispersion = deviance/(n-p) and the standard '
